@@ -59,16 +59,12 @@ func (d *deduplicator) notifyDKGStarted(
 
 	// The cache key is the hexadecimal representation of the seed.
 	cacheKey := newDKGSeed.Text(16)
-	// If the key is not in the cache, that means the seed was not handled
-	// yet and the client should proceed with the execution.
-	if !d.dkgSeedCache.Has(cacheKey) {
-		d.dkgSeedCache.Add(cacheKey)
-		return true
-	}
-
-	// Otherwise, the DKG seed is a duplicate and the client should not proceed
-	// with the execution.
-	return false
+	// Add reports whether the key was newly added to the cache. The check and
+	// the insertion are done in a single atomic step so that, when the same
+	// event is delivered concurrently, exactly one delivery proceeds with the
+	// execution. If the key was already in the cache, the DKG seed is
+	// a duplicate and the client should not proceed with the execution.
+	return d.dkgSeedCache.Add(cacheKey)
 }
 
 // notifyDKGResultSubmitted notifies the client wants to start some actions
@@ -85,16 +81,12 @@ func (d *deduplicator) notifyDKGResultSubmitted(
 		hex.EncodeToString(newDKGResultHash[:]) +
 		strconv.Itoa(int(newDKGResultBlock))
 
-	// If the key is not in the cache, that means the result was not handled
-	// yet and the client should proceed with the execution.
-	if !d.dkgResultHashCache.Has(cacheKey) {
-		d.dkgResultHashCache.Add(cacheKey)
-		return true
-	}
-
-	// Otherwise, the DKG result is a duplicate and the client should not
-	// proceed with the execution.
-	return false
+	// Add reports whether the key was newly added to the cache. The check and
+	// the insertion are done in a single atomic step so that, when the same
+	// event is delivered concurrently, exactly one delivery proceeds with the
+	// actions. If the key was already in the cache, the DKG result is
+	// a duplicate and the client should not proceed with the actions.
+	return d.dkgResultHashCache.Add(cacheKey)
 }
 
 func (d *deduplicator) notifyWalletClosed(
@@ -105,14 +97,10 @@ func (d *deduplicator) notifyWalletClosed(
 	// Use wallet ID converted to string as the cache key.
 	cacheKey := hex.EncodeToString(WalletID[:])
 
-	// If the key is not in the cache, that means the wallet closure was not
-	// handled yet and the client should proceed with the execution.
-	if !d.walletClosedCache.Has(cacheKey) {
-		d.walletClosedCache.Add(cacheKey)
-		return true
-	}
-
-	// Otherwise, the wallet closure is a duplicate and the client should not
-	// proceed with the execution.
-	return false
+	// Add reports whether the key was newly added to the cache. The check and
+	// the insertion are done in a single atomic step so that, when the same
+	// event is delivered concurrently, exactly one delivery proceeds with the
+	// execution. If the key was already in the cache, the wallet closure is
+	// a duplicate and the client should not proceed with the execution.
+	return d.walletClosedCache.Add(cacheKey)
 }
